@@ -3,6 +3,7 @@ import gc
 import io
 import os
 import random
+import re
 import sys
 import threading
 import traceback
@@ -30,7 +31,9 @@ RULE = ('in-process runs of small worlds under every subset of {--gc a [b [c]], 
         'least one state-changing option and the run reached the test phase')
 GCFLAGS = ['DEBUG_UNCOLLECTABLE', 'DEBUG_SAVEALL', 'DEBUG_LEAK']
 ABORTS = ['normal', 'failing', 'testSetUp-raises', 'testTearDown-raises', 'both-hooks-raise',
-          'kbd-test', 'kbd-layer-hook', 'stop-on-error', 'post-mortem']
+          'kbd-test', 'kbd-layer-hook', 'stop-on-error', 'post-mortem',
+          # runs that return without a test phase: listing only / refused by the option check
+          'list-only', 'options-fail']
 
 
 def gen(seed):
@@ -92,6 +95,11 @@ def gen(seed):
     elif abort == 'stop-on-error' and tests:
         plan += C.gen_test_faults(rng, disc, 1, excs=['AssertionError', 'ValueError'], p_occ=0)
         cfg['x'] = True
+    elif abort == 'list-only':
+        cfg['list'] = True
+    elif abort == 'options-fail':
+        cfg['optfail'] = rng.choice([['-r'], ['--subunit'], ['-r', '-N', '2'],
+                                     ['--subunit', '--subunit-v2']])
     elif abort == 'post-mortem' and tests:
         plan += C.gen_test_faults(rng, disc, 1, excs=['AssertionError', 'ValueError'], p_occ=0)
         cfg['pm'] = True
@@ -134,6 +142,12 @@ def gen(seed):
     elif rng.random() < 0.1:
         cfg['warnings'] = ''
     opt = {'v': rng.choice([0, 1, 2])}
+    if abort != 'post-mortem' and rng.random() < 0.15 and \
+            not any(e.get('fn') == 'settrace_cycle' for e in plan):
+        # the embedding process runs under a trace function of its own (a debugger, an outer
+        # coverage measurement): that is what must be installed again afterwards.  (Not with
+        # -D: pdb's `continue` removes the trace function itself; not with tests that do.)
+        cfg['pre_trace'] = True
     return {'property': ID, 'seed': seed, 'world': world, 'plan': _ws.order_plan(plan),
             'opt': opt, 'cfg': cfg, 'abort': abort, 'sched': {'prng': seed}, 'knobs': {}}
 
@@ -183,6 +197,9 @@ def run(spec, ctx):
         args.append('-x')
     if cfg.get('pm'):
         args.append('-D')
+    if cfg.get('list'):
+        args.append('--list-tests')
+    args += cfg.get('optfail') or []
     kw = {}
     if cfg.get('warnings') is not None:
         kw['warnings'] = cfg['warnings']
@@ -227,11 +244,19 @@ def run(spec, ctx):
             flags |= getattr(gc, g)
         gc.set_debug(flags)
         gc.set_threshold(*cfg['pre_gc_threshold'])
+    if cfg.get('pre_trace'):
+        def outer_tracer(frame, event, arg):
+            return None
+        sys.settrace(outer_tracer)
+        threading.settrace(outer_tracer)
     before = snapshot()
     try:
         res = core.execute(spec, args, run_kwargs=kw)
     finally:
         after = snapshot()
+        if cfg.get('pre_trace'):
+            sys.settrace(None)
+            threading.settrace(None)
         gc_was_enabled = gc.isenabled()
         simrt.install = orig_install
         sys.warnoptions[:] = old_warnoptions
@@ -249,6 +274,9 @@ def run(spec, ctx):
         if k == 'sys.stdin':
             continue
         if before[k] != after[k]:
+            if cfg.get('pre_trace') and k in ('sys.gettrace', 'threading.trace'):
+                # (addresses of function objects: keep messages reproducible)
+                before[k] = re.sub(r' at 0x[0-9a-f]+', '', before[k])
             viols.append(C.viol('C18/%s-not-restored/%s' % (k, spec['abort']),
                                 'options %r, test phase ended by %s (%s): %s was %r, is %r'
                                 % (statechanging, spec['abort'], how, k, before[k], after[k])))
